@@ -231,17 +231,19 @@ func (gs GenesisState) ValidateAVSUSDValues(optedAVS map[string]struct{}) (map[s
 				avsUSDValue,
 			)
 		}
-		if _, ok := optedAVS[avsUSDValue.AVSAddr]; !ok {
-			return errorsmod.Wrapf(
-				ErrInvalidGenesisData,
-				"the avs address should be in the opted-in map, avsUSDValue: %+v", avsUSDValue,
-			)
-		}
 		if avsUSDValue.Value.Amount.IsNil() ||
 			avsUSDValue.Value.Amount.IsNegative() {
 			return errorsmod.Wrapf(
 				ErrInvalidGenesisData,
 				"avsUSDValue is nil or negative, avsUSDValue: %+v", avsUSDValue,
+			)
+		}
+		// every epoch end writes the value of every AVS, also of one nobody has opted into
+		// yet: such an entry is valid as long as it is zero.
+		if _, ok := optedAVS[avsUSDValue.AVSAddr]; !ok && !avsUSDValue.Value.Amount.IsZero() {
+			return errorsmod.Wrapf(
+				ErrInvalidGenesisData,
+				"the avs address should be in the opted-in map, avsUSDValue: %+v", avsUSDValue,
 			)
 		}
 		avsUSDValueMap[avsUSDValue.AVSAddr] = avsUSDValue.Value
